@@ -1,5 +1,5 @@
 (** Extraction of the runnable definitions (ExtrOcamlBasic only; N/Z/positive/nat stay inductive). *)
-From Bbolt Require Import Base Freelist Spec Layout Cursor Pager.
+From Bbolt Require Import Base Freelist Spec Layout Cursor Pager Compact.
 Require Import ExtrOcamlBasic.
 Extraction Blacklist List String.
 Separate Extraction
@@ -12,4 +12,5 @@ Separate Extraction
   Layout.dec_db Layout.dec_with_meta Layout.accounted Layout.page_ids Layout.nodupb Layout.freelist_ids Layout.validate_at Layout.choose_meta
   Cursor.api_call Cursor.list_call Cursor.flatten Cursor.nodes Cursor.depth Cursor.has_empty_leaf Cursor.api_run Cursor.list_run Cursor.wf Cursor.fuel_for
   Layout.open_model Layout.meta_valid
+  Compact.compact Compact.wf_ents
   Pager.pstep Pager.pg_open Pager.scan_free Pager.commit_writes Pager.pend_pages Pager.minus.
